@@ -49,7 +49,9 @@ func c20Strings() []string {
 	}
 	out = append(out, "4294967295", "4294967296", "04294967295", "+4294967295", "9223372036854775807", "9223372036854775808", "18446744073709551615", "18446744073709551616",
 		strings.Repeat("1", 32), strings.Repeat("1", 33), strings.Repeat("0", 32), "channel-0", "channel-00", "channel-01", "channel-+1", "channel-18446744073709551615", "channel-18446744073709551616",
-		"channel-", "channel", "Channel-1", "channel-1 ", "0x1", "0X1", "0b1", "0o7", "1e3", "1_000", "١", "１", "1\x00", "\x001", "1\n", "noble", "noble:1", "4:noble", "00", "000", "-0", "+0", "0 ", " 0", "2", "02", "+2", "2 ", "3", "10", "010")
+		"channel-", "channel", "Channel-1", "channel-1 ", "0x1", "0X1", "0b1", "0o7", "1e3", "1_000", "١", "１", "1\x00", "\x001", "1\n", "noble", "noble:1", "4:noble", "00", "000", "-0", "+0", "0 ", " 0", "2", "02", "+2", "2 ", "3", "10", "010",
+		// bytes that are not valid UTF-8 (a transaction can carry them), a lone surrogate, non-characters, look-alikes
+		"\xff", "\xfe", "a\xffb", "\xed\xa0\x80", "1\xff", "\xc0\xb1", "\ufffd", "\u2028", "noble\u200b", "nоble")
 	return out
 }
 
